@@ -33,6 +33,46 @@ class HarnessError(Exception):
     """Something went wrong in the machinery itself (exit 2, never a violation)."""
 
 
+class ImplTimeout(Exception):
+    """the code under test did not return within the time limit (reported like an exception it raised: "always terminates")"""
+
+
+_timeouts_seen = [0]
+
+
+class time_limit:
+    """`with time_limit(): <call into /repo>` - raises ImplTimeout in the calling (main) thread of this process after `seconds`
+    (SIGALRM; generous: the unchanged tree needs milliseconds).  After three timeouts in one process the limit drops to 3 s, and
+    after six the call is not made at all any more (ImplTimeout at once), so that code that hangs on a whole family of inputs does
+    not stall the check."""
+
+    def __init__(self, seconds=45):
+        self.seconds = seconds if _timeouts_seen[0] < 3 else 3
+
+    def _fire(self, signum, frame):
+        _timeouts_seen[0] += 1
+        raise ImplTimeout('no result after %d s' % self.seconds)
+
+    def __enter__(self):
+        import signal
+        import threading
+        self.active = threading.current_thread() is threading.main_thread()
+        if _timeouts_seen[0] >= 6:
+            self.active = False
+            raise ImplTimeout('not tried: six earlier calls in this process did not return')
+        if self.active:
+            self.old = signal.signal(signal.SIGALRM, self._fire)
+            signal.setitimer(signal.ITIMER_REAL, self.seconds)
+        return self
+
+    def __exit__(self, *exc):
+        import signal
+        if self.active:
+            signal.setitimer(signal.ITIMER_REAL, 0)
+            signal.signal(signal.SIGALRM, self.old)
+        return False
+
+
 # --------------------------------------------------------------------------------------------
 # Lean side
 
